@@ -32,8 +32,11 @@ def gen_cases(tier, seed):
         cases.append({"kind": "ladder", "depth": depth, "seed": 0})
     for n in ((1500, 3000), (4000, 8000)) + (((20000, 40000),) if tier == "thorough" else ()):
         cases.append({"kind": "linear-cost", "n": n[0], "n2": n[1], "seed": int(rng.integers(2 ** 31))})
+    for n in ((400, 800), (1500, 3000)):
+        for wop in ("stack", "concat", "sum-of-terms"):
+            cases.append({"kind": "linear-cost", "n": n[0], "n2": n[1], "shape": "wide:" + wop, "seed": int(rng.integers(2 ** 31))})
     for n in (1000, 10000) + ((100000,) if tier == "thorough" else (30000,)):
-        for mode in ("no_grad", "non-requiring", "detached-mix"):
+        for mode in ("no_grad", "non-requiring", "detached-mix", "no_grad-with-parameter", "inside-retain_grads", "no_grad-linear"):
             cases.append({"kind": "untracked", "n": n, "mode": mode, "seed": int(rng.integers(2 ** 31))})
     cases.append({"kind": "weakref", "seed": 0})
     return cases
@@ -121,7 +124,21 @@ def run_case(ns, mon, c):
         counts = []
         for n in (c["n"], c["n2"]):
             x = T(np.arange(1.0, 7.0).reshape(2, 3), requires_grad=True)
-            y, _ = build_chain(ns, x, n, gen.rng_for(c["seed"], "lin"))
+            if c.get("shape", "chain").startswith("wide:"):
+                # one recorded op with n operands (or n terms feeding one accumulator)
+                terms = [x * (1.0 + i * 1e-6) for i in range(n)]
+                wop = c["shape"].split(":")[1]
+                if wop == "stack":
+                    y = sg.stack(terms, 0)
+                elif wop == "concat":
+                    y = sg.concat(terms, 0)
+                else:
+                    y = terms[0]
+                    for t_ in terms[1:]:
+                        y = y + t_
+                del terms
+            else:
+                y, _ = build_chain(ns, x, n, gen.rng_for(c["seed"], "lin"))
             out = y.sum()
             cnt = [0]
 
@@ -142,11 +159,16 @@ def run_case(ns, mon, c):
         if ratio > 2.3 * (c["n2"] / c["n"]) / 2:
             viol.append(V("cost:super-linear", "work done by backward grows faster than linearly with the number of recorded ops: " + note))
         mon.drain()
-        return {"key": ("linear-cost", c["n"]), "viol": viol, "counters": counters, "note": note, "cover": {"scenarios": ["linear-cost"]}}
+        if viol and c.get("shape"):
+            viol[0]["sig"] = "cost:super-linear:" + c["shape"]
+        return {"key": ("linear-cost", c["n"], c.get("shape", "chain")), "viol": viol, "counters": counters, "note": c.get("shape", "chain") + ": " + note,
+                "cover": {"scenarios": ["linear-cost:" + c.get("shape", "chain")]}}
     elif kind == "untracked":
         n = c["n"]
         w = T(rng.standard_normal(8), requires_grad=(c["mode"] == "no_grad"))
         gfix = T(rng.standard_normal(8))
+        par = T(rng.standard_normal(8) * 1e-3, requires_grad=True)          # a parameter that requires grad, used inside untracked loops
+        W = T(np.eye(8) * 0.999, requires_grad=True)
         samples = []
         gc.collect()
         base = mon.live_count()
@@ -154,9 +176,19 @@ def run_case(ns, mon, c):
         def body(w):
             if c["mode"] == "detached-mix":
                 return (w * 0.999 + gfix * 0.001).detach() * 1.0
+            if c["mode"] == "no_grad-with-parameter":
+                return w * 0.999 + par                      # the loop-carried value is a direct operand together with a requiring parameter
+            if c["mode"] == "no_grad-linear":
+                return sg.linear(w.reshape((1, 8)), W).reshape((8,))
             return w - gfix * 0.001
         step = max(1, n // 10)
-        if c["mode"] == "no_grad":
+        if c["mode"] == "inside-retain_grads":
+            with sg.retain_grads():
+                for i in range(n):
+                    w = body(w)
+                    if (i + 1) % step == 0:
+                        samples.append(mon.live_count() - base)
+        elif c["mode"] in ("no_grad", "no_grad-with-parameter", "no_grad-linear"):
             with sg.no_grad():
                 for i in range(n):
                     w = body(w)
